@@ -175,7 +175,8 @@ class RungeKuttaIntegrator(TableauIntegrator, abc.ABC):
             if self.is_fsal:
                 self.stage_values[...,0] = self.final_rhs
         else:
-            self.initial_rhs = rhs(initial_time, initial_state, **constants)
+            # (a copy: the right-hand side may hand back one preallocated array on every call)
+            self.initial_rhs = D.ar_numpy.copy(rhs(initial_time, initial_state, **constants))
 
         if self.is_implicit and self.__rhs_jac is None:
             self.__rhs_jac = rhs.jac(initial_time, initial_state, **constants)
@@ -320,10 +321,10 @@ class RungeKuttaIntegrator(TableauIntegrator, abc.ABC):
         self.dTime = D.ar_numpy.copy(timestep)
         if self.is_fsal and self.is_explicit:
             self.dState = intermediate_dstate
-            self.final_rhs = intermediate_rhs
+            self.final_rhs = D.ar_numpy.copy(intermediate_rhs)
         else:
             self.dState = timestep * D.ar_numpy.sum(self.stage_values * self.tableau_final[0, 1:], axis=-1)
-            self.final_rhs = rhs(initial_time + self.dTime, initial_state + self.dState, **constants)
+            self.final_rhs = D.ar_numpy.copy(rhs(initial_time + self.dTime, initial_state + self.dState, **constants))
         
         if self.is_implicit and self.__rhs_jac is not None:
             self.__rhs_jac = broyden_update_jac(
@@ -399,9 +400,9 @@ class ExplicitSymplecticIntegrator(TableauIntegrator):
                   constants=constants, timestep=timestep)
 
         if self.initial_rhs is None:
-            self.initial_rhs = rhs(initial_time, initial_state, **constants)
+            self.initial_rhs = D.ar_numpy.copy(rhs(initial_time, initial_state, **constants))
 
-        self.final_rhs = rhs(initial_time + self.dTime, initial_state + self.dState, **constants)
+        self.final_rhs = D.ar_numpy.copy(rhs(initial_time + self.dTime, initial_state + self.dState, **constants))
 
         return timestep, (self.dTime, self.dState)
 
@@ -422,7 +423,8 @@ class ExplicitSymplecticIntegrator(TableauIntegrator):
 
         for stage in range(D.ar_numpy.shape(self.tableau_intermediate)[0]):
             if stage == 0:
-                self.initial_rhs = rhs(current_time, initial_state + self.dState, **constants)
+                # (a copy: the right-hand side may hand back one preallocated array on every call)
+                self.initial_rhs = D.ar_numpy.copy(rhs(current_time, initial_state + self.dState, **constants))
                 aux = timestep * self.initial_rhs
             else:
                 aux = timestep * rhs(current_time, initial_state + self.dState, **constants)
@@ -600,8 +602,8 @@ def generate_richardson_integrator(basis_integrator, richardson_iter=2):
                 timestep = next_timestep
                 self.initial_time = D.ar_numpy.copy(initial_time)
                 self.initial_state = D.ar_numpy.copy(initial_state)
-                self.initial_rhs = rhs(initial_time, initial_state, **constants)
-                self.final_rhs = rhs(initial_time + self.dTime, initial_state + self.dState, **constants)
+                self.initial_rhs = D.ar_numpy.copy(rhs(initial_time, initial_state, **constants))
+                self.final_rhs = D.ar_numpy.copy(rhs(initial_time + self.dTime, initial_state + self.dState, **constants))
 
             return timestep, (self.dTime, self.dState)
 
